@@ -201,6 +201,53 @@ func RunCoh(c *core.Ctx) {
 				checkProtoSource(c, g, v, fdp)
 			}
 		}
+		// ---- COH.pkgname: the package clause of a generated file is the Go package name its schema asks for — the
+		// `;name` part of go_package, else the last element of the import path (made an identifier) — so that it can share a
+		// directory with what other generators produce for the same go_package
+		for v, fdp := range g.RawVars {
+			gp := fdp.GetOptions().GetGoPackage()
+			if sc := s2.SchemaOf[g.Types.Path()]; sc != nil && strings.Contains(sc.Param, "M"+fdp.GetName()+"=") {
+				continue // renamed by an M parameter
+			}
+			if gp == "" {
+				continue
+			}
+			want := gp
+			if k := strings.Index(gp, ";"); k >= 0 {
+				want = gp[k+1:]
+			} else {
+				want = gp[strings.LastIndex(gp, "/")+1:]
+			}
+			var sb strings.Builder
+			for i, r := range want {
+				ok := r == '_' || (r >= 'a' && r <= 'z') || (r >= 'A' && r <= 'Z') || (r >= '0' && r <= '9' && i > 0) || r > 127
+				if r >= '0' && r <= '9' && i == 0 {
+					sb.WriteByte('_')
+					ok = true
+				}
+				if ok {
+					sb.WriteRune(r)
+				} else {
+					sb.WriteByte('_')
+				}
+			}
+			want = sb.String()
+			for _, f := range g.Files {
+				declares := false
+				for _, d := range f.Decls {
+					if gd, ok := d.(*ast.GenDecl); ok && gd.Tok == token.VAR {
+						for _, sp := range gd.Specs {
+							for _, n := range sp.(*ast.ValueSpec).Names {
+								declares = declares || n.Name == v
+							}
+						}
+					}
+				}
+				if declares {
+					c.Check(f.Name.Name == want, "COH.pkgname", g.Name+" "+v, "package "+want, "the file says `package "+f.Name.Name+"`, its schema's go_package ("+gp+") asks for `package "+want+"`", "", src)
+				}
+			}
+		}
 		// ---- COH.imports: the Go package of every (non-weak) import of the schema is linked in — imported by the
 		// generated file, by name or blank — so that the dependency is registered whenever this file is
 		schemaParam := ""
@@ -1310,6 +1357,23 @@ func checkInitChain(c *core.Ctx, g *model.GenPkg, rawVar, base string, fdesc pro
 	for v, fdp := range g.RawVars {
 		if v != rawVar {
 			sameGoPkg[fdp.GetName()] = strings.TrimSuffix(v, "_rawDesc")
+		}
+	}
+	// files of the same Go package generated by another generator (protoc-gen-go for a proto2 neighbour): their init
+	// function exists in the package under the standard name
+	for i, imps := 0, fdesc.Imports(); i < imps.Len(); i++ {
+		dep := imps.Get(i).Path()
+		if _, known := sameGoPkg[dep]; known {
+			continue
+		}
+		cand := "file_" + strings.Map(func(r rune) rune {
+			if r == '_' || (r >= 'a' && r <= 'z') || (r >= 'A' && r <= 'Z') || (r >= '0' && r <= '9') {
+				return r
+			}
+			return '_'
+		}, dep)
+		if fn, ok := g.Types.Scope().Lookup(cand + "_init").(*types.Func); ok && fn != nil {
+			sameGoPkg[dep] = cand
 		}
 	}
 	builderAt := -1
